@@ -18,7 +18,9 @@ Breaking == {"squote", "dquote", "backslash", "newline", "cr", "ls", "nul", "nul
 AllChars == Plain \cup Breaking
 Words == {"reserved2", "reserved3", "reserved-long", "proto"}          \* if / for / class / __proto__
 Bodies == {"plain-body", "line-comment-end", "no-semicolon", "closing-tag-like", "template-literal", "regex-star",
-           "use-strict", "squote-body", "block-comment-end", "empty-body"}
+           "use-strict", "squote-body", "block-comment-end", "empty-body",
+           (* Annex B HTML-like comments, legal in a script file: `-->` only at the start of a line *)
+           "html-close-comment-first", "html-open-comment-first"}
 Numbers == {"int", "bigfloat", "tinyfloat", "overflow"}
 
 (* what each embedding form can hold *)
@@ -26,7 +28,7 @@ CanHold(form) ==
     CASE form = "dq-encoded"  -> AllChars \cup Words     \* through the string-literal encoder: anything
       [] form = "member"      -> {"ident"} \cup Words    \* `.name`: identifier names (reserved words are fine)
       [] form = "object-key"  -> {"ident"} \cup Words
-      [] form = "script-body" -> Bodies                   \* body followed by a line break before the closing brace
+      [] form = "script-body" -> Bodies                   \* body on lines of its own: a line break after the opening and before the closing brace
       [] form = "number"      -> Numbers
       [] OTHER -> {}
 
